@@ -110,7 +110,8 @@ func (t *HtmlScanner) initState() error {
 		if err := t.NextRune(); err != nil {
 			return err
 		}
-		if t.ch == '<' { // 如果是 < 说明是 tag
+		_, inRawText := t.isInRawTextTag()
+		if t.ch == '<' && !inRawText { // 如果是 < 说明是 tag (文本标签内的 < 仍是文本 由 readText 识别结束标签)
 			t.state = stateTagStart
 		} else {
 			t.state = stateText
@@ -179,12 +180,6 @@ func (t *HtmlScanner) readText() (tok *Token, err error) {
 						// tagBuf =</script>
 						// after Truncate: textBuf=a
 						textBuf.Truncate(textBuf.Len() + 1 - tagBuf.Len())
-						textToken := t.addToken(&Token{
-							Kind:  TokenKindText,
-							Value: textBuf.String(),
-							Start: start,
-							End:   end,
-						})
 						tagToken := &Token{
 							Kind:  TokenKindTag,
 							Value: tagBuf.String(),
@@ -195,9 +190,17 @@ func (t *HtmlScanner) readText() (tok *Token, err error) {
 								// 结束标签无属性
 							},
 						}
-						t.nextToken = tagToken
 						t.state = stateInit
-						return textToken, nil
+						if textBuf.Len() == 0 { // <script></script> 没有文本内容 直接返回结束标签
+							return t.addToken(tagToken), nil
+						}
+						t.nextToken = tagToken
+						return t.addToken(&Token{
+							Kind:  TokenKindText,
+							Value: textBuf.String(),
+							Start: start,
+							End:   end,
+						}), nil
 					}
 				} else { // 不是 tag 结束，比如只是 `x<y` 的 "<y"
 					tagBuf.Reset()
